@@ -147,6 +147,7 @@ Section Run.
           (forallb (item_fits c) its = false \/ forallb (fun e => ev_size e <=? fresh_room c) evs = false)
       | OError => Forall (fun d => d_more d = true) ds /\ forallb (atom_fits c) stats = false
       | OFuel => Forall (fun d => d_more d = true) ds /\ (n <= length evs)%nat
+      | OAbort => Forall (fun d => d_more d = true) ds /\ can_refuse c = true
       end.
   Proof.
     intros E. pose proof (respond_spec n c its stats evs Hc Hs) as H. rewrite E in H.
@@ -212,7 +213,7 @@ Section Run.
   Proof.
     intros E Ho. destruct (run_views _ _ E) as (ds & _ & Hp & _ & Hrest).
     exists (map (view_of c) ds). split; [assumption|].
-    assert (Hm : Forall (fun d => d_more d = true) ds) by (destruct o; [congruence | | | ]; apply Hrest).
+    assert (Hm : Forall (fun d => d_more d = true) ds) by (destruct o; [congruence | | | | ]; apply Hrest).
     clear - Hm. induction Hm as [|d ds Hd _ IH]; [reflexivity|]. cbn [map forallb view_of v_more v_supp].
     rewrite Hd, IH. reflexivity.
   Qed.
@@ -224,16 +225,30 @@ Section Run.
   Qed.
 
   Lemma completes :
+    accept c = None ->
     (length evs < n)%nat -> all_fit c its stats evs = true -> fst (respond n c its stats evs) = ODone.
   Proof.
-    intros Hn Hfit. unfold all_fit in Hfit. apply andb_prop in Hfit. destruct Hfit as [Hfit H3].
+    intros Hacc Hn Hfit. unfold all_fit in Hfit. apply andb_prop in Hfit. destruct Hfit as [Hfit H3].
     apply andb_prop in Hfit. destruct Hfit as [H1 H2].
     destruct (respond n c its stats evs) as [o chunks] eqn:E. cbn [fst].
-    destruct (run_views _ _ E) as (ds & _ & _ & _ & Hrest). destruct o; [reflexivity | | | ].
+    destruct (run_views _ _ E) as (ds & _ & _ & _ & Hrest). destruct o; [reflexivity | | | | ].
     - destruct Hrest as [_ [H|H]]; congruence.
     - destruct Hrest as [_ H]. congruence.
+    - destruct Hrest as [_ H]. unfold can_refuse in H. rewrite Hacc in H. discriminate H.
     - destruct Hrest as [_ H]. lia.
   Qed.
+
+  Lemma accepting_never_aborts : accept c = None -> fst (respond n c its stats evs) <> OAbort.
+  Proof.
+    intros Hacc. destruct (respond n c its stats evs) as [o chunks] eqn:E. cbn [fst]. intros ->.
+    destruct (run_views _ _ E) as (ds & _ & _ & _ & _ & H). unfold can_refuse in H. rewrite Hacc in H. discriminate H.
+  Qed.
+
+  Lemma aborted_never_complete (chunks : list (list token)) :
+    respond n c its stats evs = (OAbort, chunks) ->
+    exists vs, map parse_chunk chunks = map Some vs /\
+               forallb (fun v => v_more v && negb (v_supp v)) vs = true.
+  Proof. intros E. apply (unfinished_never_ends OAbort chunks E). discriminate. Qed.
 
   Lemma status_means_oversized :
     fst (respond n c its stats evs) = OStatus ->
